@@ -6,7 +6,7 @@
 (*   [ev |-> "edit",  case |-> n, op |-> STRING, ret |-> STRING]           *)
 (*   [ev |-> "skip",  case |-> n, target |-> STRING, why |-> STRING]       *)
 (*   [ev |-> "save",  case |-> n, via, target, k, ret, tb, tbwhen, complete,*)
-(*                    before, disk, size, n0, dirstart, cmax]              *)
+(*                    before, disk, size, n0, dirstart, cmax, conc]        *)
 (* One "save" line is one call of a save entry point (see SaveIO.tla for    *)
 (* the fields).  The judge never blocks: every call is judged on its own.   *)
 (* For every call the reference protocol is also run (Run) on the observed   *)
@@ -28,12 +28,13 @@ RefCfg(e) ==
   LET body == e.dirstart
       held == Smaller(Smaller(e.cmax, FlateMax), body)
   IN [variant |-> "intended", target |-> e.target, hdr |-> <<0>>, dat |-> <<body>>, pass |-> <<body - held>>,
-      dir |-> e.n0 - e.dirstart, B |-> BufSize, faultAt |-> e.k, closeFault |-> FALSE, serFault |-> FALSE]
+      dir |-> e.n0 - e.dirstart, B |-> BufSize, faultAt |-> e.k, closeFault |-> FALSE, serFault |-> FALSE, staged |-> FALSE]
 
 \* outside the uncertainty band the protocol run on the observed sizes and the closed form agree
 OracleAgrees(e) ==
   \/ ObsExpRet(e) = "any"
   \/ e.tb # "ok"
+  \/ e.n0 = 0           \* no layout known (the unfaulted reference save of this document gave no complete file)
   \/ Run(RefCfg(e)).ret = (IF ObsExpRet(e) = "nil" THEN "nil" ELSE "err")
 
 Judge(e) ==
